@@ -317,6 +317,12 @@ IsHeadAlias(x, env, g) ==
      \/ /\ IsInjIdent(sx, env) /\ Bound(env, sx.v)
         /\ IsHeadAlias(env.b[sx.v].raw, env, g)
 
+D21Mark == "#D21-optional-call-loses-receiver"
+HasReceiver(raw) ==
+  LET r == StripParen(raw) IN
+  \/ r.t = "MemberExpression"
+  \/ r.t = "OptionalChainingExpression" /\ r.c[1].t = "MemberExpression"
+
 Opt(flag, base) ==
   CN("OptionalChainingExpression", "", IF flag THEN "optional=true" ELSE "optional=false", <<base>>, 0)
 
@@ -362,8 +368,12 @@ ErSpine(n, env, g) ==
          Opt(IsHeadAlias(n.c[1], env, g),
              CN("MemberExpression", "", "", <<ErSpine(n.c[1], env, g), Er(n.c[2], env)>>, 0))
     [] n.t = "CallExpression" ->
-         Opt(IsHeadAlias(n.c[1], env, g),
-             CN("CallExpression", "", "", <<ErSpine(n.c[1], env, g), Er(n.c[2], env)>>, 0))
+         \* g(args) with g = X.f / X?.y.f : the optional call  X.f?.(args)  has lost its receiver
+         \* (named deviation D21, a C01 matter: the syntax erases back to the input all the same)
+         LET c == Opt(IsHeadAlias(n.c[1], env, g),
+                      CN("CallExpression", "", "", <<ErSpine(n.c[1], env, g), Er(n.c[2], env)>>, 0))
+         IN IF IsHeadAlias(n.c[1], env, g) /\ Bound(env, g) /\ HasReceiver(env.b[g].raw)
+            THEN AddOrigin(c, D21Mark) ELSE c
     [] n.t = "OptionalChainingExpression" ->
          \* upper part of the chain, left as it was: keep its flags, continue below
          LET b == n.c[1] IN
@@ -420,6 +430,10 @@ Match(e, i) ==
   ELSE IF e.t # i.t \/ e.v # i.v \/ e.a # i.a \/ Len(e.c) # Len(i.c)
   THEN MFail("at input node " \o ToString(i.id) \o " (" \o i.t \o "): output has " \o e.t \o " " \o e.v)
   ELSE MatchKids(e, i, 1)
+
+(* does the erased tree carry the origin mark x somewhere? *)
+RECURSIVE HasOrigin(_, _)
+HasOrigin(e, x) == (\E j \in 1..Len(e.o) : e.o[j] = x) \/ \E k \in 1..Len(e.c) : HasOrigin(e.c[k], x)
 
 (* every mark in an erased tree: sequence of [h, hw, t, v] *)
 RECURSIVE Marks(_)
